@@ -416,6 +416,43 @@ func genC20(g *Gen) {
 		g.Case("size", J{"topnil": false, "t": J{"k": "struct", "f": []J{{"k": "iface"}, st}}, "v": J{"f": []J{{"nil": false, "dt": st, "dyn": J{"x": 1}}, {"x": 2}}}})
 		g.Case("size", J{"topnil": false, "t": J{"k": "map", "key": J{"k": "string"}, "e": st}, "v": J{"nil": false, "kv": [][]J{{{"n": 3, "x": 1}, {"x": 2}}, {{"n": 4, "x": 2}, {"x": 2}}}}})
 	}
+	// large containers with heterogeneous elements (sampling or extrapolating from the first elements would show):
+	// slices of 300..5000 strings of different lengths, of pointers (some nil, some shared), a map with 300 entries
+	for c := 0; c < g.N(4, 40); c++ {
+		r := g.R
+		n := []int{300, 1000, 1025, 5000}[c%4]
+		var t, v J
+		switch c % 3 {
+		case 0:
+			el := make([]J, n)
+			for i := range el {
+				sg.ctr++
+				el[i] = J{"n": (i * 7) % 23, "x": sg.ctr}
+			}
+			t, v = J{"k": "slice", "e": J{"k": "string"}}, J{"nil": false, "el": el}
+		case 1:
+			el := make([]J, n)
+			for i := range el {
+				switch {
+				case i%5 == 0:
+					el[i] = J{"nil": true}
+				case i > 0 && i%7 == 0 && el[i-1]["nil"] == false:
+					el[i] = J{"dup": i - 1}
+				default:
+					el[i] = J{"nil": false, "to": J{"nil": false, "el": []J{{"x": 1}, {"x": 2}}[:r.Intn(3)]}}
+				}
+			}
+			t, v = J{"k": "slice", "e": J{"k": "ptr", "e": J{"k": "slice", "e": J{"k": "int16"}}}}, J{"nil": false, "el": el}
+		default:
+			kv := make([][]J, 300)
+			for i := range kv {
+				sg.ctr++
+				kv[i] = []J{{"n": 9, "x": sg.ctr}, {"nil": false, "el": []J{{"x": 1}, {"x": 2}, {"x": 3}}[:i%4]}}
+			}
+			t, v = J{"k": "map", "key": J{"k": "string"}, "e": J{"k": "slice", "e": J{"k": "uint8"}}}, J{"nil": false, "kv": kv}
+		}
+		g.Case("size", J{"topnil": false, "t": t, "v": v})
+	}
 	for c := 0; c < g.N(2500, 100000); c++ {
 		depth := 1 + g.R.Intn(g.N(4, 6))
 		t := sg.typ(depth)
